@@ -667,3 +667,13 @@ for nmax, tier in ((2, "never"), (3, "never")):   # does not finish within 30 mi
       enforce=["compactCells/compactCells_c17"], replace=["isPentagon", "cellToParent"], unwind=nmax + 3, timeout=1800, tier=tier,
       checks=["--bounds-check", "--pointer-check"],
       bound_note="at most %d input cells (every allocation may fail; all error exits reachable at that size except the pentagon-duplicate one)" % nmax)
+
+J(name="c05.gridDiskDistancesUnsafe", props=["C05", "C12"], harness="c12.c", entry="h_gridDiskDistancesUnsafe", enforce=["gridDiskDistancesUnsafe"],
+  replace=["h3NeighborRotations/h3NeighborRotations_frame", "isPentagon"], checks=["--no-standard-checks", "--signed-overflow-check"], timeout=1500,
+  bound_note="k <= 30000 (covers the index range up to and beyond 2^31); arithmetic-overflow and error-code obligations only",
+  exclude=[(r"gridDiskDistancesUnsafe\.assigns\.\d+ .*(out|distances)\[", "write bound idx < maxGridDiskSize(k): a quadratic fact, not decided")],
+  loops=[dict(fn="gridDiskDistancesUnsafe", loop=0, locals=["idx", "ring", "direction", "i", "rotations", "origin", "k", "out", "distances"],
+              assigns="idx, ring, direction, i, rotations, origin, __CPROVER_object_whole(out), __CPROVER_object_whole(distances)",
+              inv="1 <= ring && ring <= k + 1 && 0 <= direction && direction < 6 && 0 <= i && i < ring && k <= 30000 && "
+                  "(signed long)idx == 1 + 3 * (signed long)ring * ((signed long)ring - 1) + (signed long)direction * ring + i")],
+  replay=dict(fn="gridDiskDistancesUnsafe_big", args=[]))
